@@ -369,8 +369,11 @@ class SymbolGraph(metaclass=SingletonMeta):
         wrapped_instance = self.get_wrapped_instance(wrapped_instance)
         if not wrapped_instance:
             return
+        # instances that are collected but not swept yet have no relations anymore
         yield from (
-            edge for _, _, edge in self._instance_graph.in_edges(wrapped_instance.index)
+            edge
+            for _, _, edge in self._instance_graph.in_edges(wrapped_instance.index)
+            if edge.source.instance is not None
         )
 
     def get_outgoing_relations_with_type(
@@ -413,9 +416,11 @@ class SymbolGraph(metaclass=SingletonMeta):
         wrapped_instance = self.get_wrapped_instance(wrapped_instance)
         if not wrapped_instance:
             return
+        # instances that are collected but not swept yet have no relations anymore
         yield from (
             edge
             for _, _, edge in self._instance_graph.out_edges(wrapped_instance.index)
+            if edge.target.instance is not None
         )
 
     def to_dot(
